@@ -7,6 +7,8 @@ import (
 	"errors"
 	"fmt"
 	"github.com/form3tech-oss/f1/v2/internal/verifh/runkit"
+	"os"
+	"path/filepath"
 	"sync/atomic"
 	"testing"
 	"time"
@@ -413,8 +415,38 @@ func cliCase(o *kit.Out, r *kit.Rand, idx int) {
 	} else {
 		omitted++
 	}
+	// the same through config files: the file of the measured run names no tolerance at all, the
+	// file of an earlier execution in this process names generous ones
+	viaFile := bare && idx%2 == 0
+	if viaFile {
+		dir, derr := os.MkdirTemp("", "verif_c08_")
+		if derr != nil {
+			return
+		}
+		defer os.RemoveAll(dir)
+		cfgFile := func(file, scenario, limits string, iters int64) string {
+			path := filepath.Join(dir, file)
+			_ = os.WriteFile(path, []byte("scenario: "+scenario+"\ndefault:\n  mode: users\n  jitter: 0\n  distribution: none\n"+
+				"limits:\n  max-duration: 5s\n  concurrency: 1\n  max-iterations: "+kit.I(iters)+"\n  ignore-dropped: false\n"+limits+
+				"stages:\n  - duration: 5s\n    mode: users\n    concurrency: 1\n"), 0o600)
+			return path
+		}
+		var k0 atomic.Int64
+		other := f1.New()
+		other.Add(name+"gen", func(*f1testing.T) f1testing.RunFn {
+			return func(t *f1testing.T) {
+				if k0.Add(1)%2 == 0 {
+					t.Fail()
+				}
+			}
+		})
+		tolerant := cfgFile("tolerant.yaml", name+"gen", "  max-failures: 1000\n  max-failures-rate: 100\n", 6)
+		_, _ = kit.Guard(func() { _ = other.ExecuteWithArgs([]string{"run", "file", tolerant}) })
+		args = []string{"run", "file", cfgFile("strict.yaml", name, "", n)}
+		o.Count("cli", "config file without tolerances after a run from a file with generous ones")
+	}
 	var err error
-	if omitted > 0 && (bare || idx%3 != 1) {
+	if !viaFile && omitted > 0 && (bare || idx%3 != 1) {
 		// an earlier execution in this process (another instance, another trigger mode) was given
 		// generous tolerances: they are that run's, not this one's
 		var k0 atomic.Int64
